@@ -356,6 +356,26 @@ def rawarg_calls():
             a = numpy.array([[1.5, 2.0], [0.0, -1.0]], order=order)
             return {"array": a}, lambda: (numpoly.polynomial(a), numpoly.aspolynomial(a), a + base[:2], a * base[:2], base[:2] - a)
         add(f"numeric array {order} through constructors and operators", mk_arr)
+    # polynomials that only DESIGNATE something: the differentiation variable, the names argument
+    def mk_desig():
+        q0_, q1_ = numpoly.variable(2)
+        sym = numpoly.symbols("q1")
+        ind = base.indeterminants
+        return ({"p": base, "q0": q0_, "q1": q1_, "symbols(q1)": sym, "indeterminants": ind},
+                lambda: (numpoly.derivative(base, q1_), numpoly.derivative(base, q0_, q1_), numpoly.derivative(base, sym), numpoly.derivative(base, ind[0]),
+                         numpoly.derivative(base, q1_, 0), numpoly.polynomial(base, names=ind), numpoly.aspolynomial(base, names=ind),
+                         numpoly.polynomial_from_attributes(base.exponents, base.coefficients, ind), numpoly.set_dimensions(q1_, 3), base(q0=q1_), base(q1_, q0_)))
+    add("designator polynomials (derivative, names=)", mk_desig)
+
+    def mk_names():
+        for nm in ("q1", "q", ["q3", "q4"]):
+            try:
+                numpoly.aspolynomial(base, names=nm)
+            except Exception:  # noqa: BLE001
+                pass
+        return None
+    add("aspolynomial(p, names=<one string / list>)", lambda: ({"p": base}, mk_names))
+
     # evaluation arguments
     def mk_call():
         a1, a2 = numpy.array([1, 2, 3]), numpy.array([[0.5], [2.0]])
@@ -401,7 +421,9 @@ def cases(tier, seed):
         for i0 in range(0, nkw, 400):
             out.append({"k": "keywords", "form": fi, "i0": i0, "i1": min(nkw, i0 + 400)})
         out.append({"k": "printing", "form": fi})
-        for i0 in range(0, len(names), 6):
+        for ci, i0 in enumerate(range(0, len(names), 6)):
+            if tier == "quick" and fi >= 14 and (ci + fi) % 2:
+                continue     # quick: the operand forms added later sweep alternating halves of the registry (thorough: all of it)
             out.append({"k": "registry", "form": fi, "i0": i0, "i1": min(len(names), i0 + 6)})
         out.append({"k": "extra", "form": fi})
         out.append({"k": "targets", "form": fi})
